@@ -13,15 +13,16 @@ CONSTANT CaseFile
 Cases == ndJsonDeserialize(CaseFile)
 
 VARIABLES ci,      \* case index
+          cs,      \* the case itself (read once: the case file is not re-read at every reference)
           k,       \* index of the command being run (1-based; Len+1 = finished)
           a,       \* index of the next argument of RunFiles to expand for this command
           pend,    \* files of the current argument still to be searched (a directory argument expands to its entries NOW)
           fs,      \* the file system: file id -> bytes; id = [d : directory ("" = the working directory), n : name]
           dl,      \* directory listings: directory -> names in os.ReadDir order
           acc      \* matches returned so far (RunFiles concatenates them)
-fvars == <<ci, k, a, pend, fs, dl, acc>>
+fvars == <<ci, cs, k, a, pend, fs, dl, acc>>
 
-C == Cases[ci]
+C == cs
 HasFld(r, f) == f \in DOMAIN r
 Id(d, n) == [d |-> d, n |-> n]
 FileIdOf(f) == Id(IF HasFld(f, "d") THEN f.d ELSE "", f.name)
@@ -42,8 +43,33 @@ TransOf(c) ==
   IN [x \in {tr[j].name : j \in 1..Len(tr)} |->
         (LET j == CHOOSE j \in 1..Len(tr) : tr[j].name = x IN tr[j].stmts)]
 
+(* A command whose body is one plain literal finds the leftmost,            *)
+(* non-overlapping occurrences: the scan written out directly.  It is what  *)
+(* the semantics gives (LitScanAgrees below, checked on every small case)   *)
+(* and it can be evaluated on files far beyond the reader's window.         *)
+IsPlainLit(cmd) ==
+  /\ Len(cmd.body) = 1 /\ cmd.body[1].k = "lit" /\ ~cmd.body[1].neg /\ ~cmd.body[1].ci /\ Len(cmd.body[1].s) > 0
+  /\ cmd.amt.k = "all"
+(* (occurrences as a set, then the leftmost one at or after the previous     *)
+(* match's end: no recursion over the text, TLC evaluates it in linear time) *)
+Occ(t, s) == {p \in 0..(Len(t) - Len(s)) : SubSeq(t, p + 1, p + Len(s)) = s}
+RECURSIVE Pick(_, _, _, _)
+Pick(O, len, from, n) ==
+  LET R == {p \in O : p >= from} IN
+  IF R = {} THEN <<>>
+  ELSE LET p == CHOOSE p \in R : \A q \in R : p <= q
+       IN <<[s |-> p, e |-> p + len, n |-> n]>> \o Pick(O, len, p + len, n + 1)
+LitScan(t, s, pos, n) == Pick(Occ(t, s), Len(s), pos, n)
+StrItemsOnly(cmd) == cmd.kind = "find" \/ \A j \in 1..Len(cmd.with) : cmd.with[j].k = "str"
+Fast(c, cmd) == HasFld(c, "big") /\ IsPlainLit(cmd) /\ StrItemsOnly(cmd)
+FastMatches(cmd, t) ==
+  LET E == LitScan(t, cmd.body[1].s, 0, 1)
+      r == IF cmd.kind = "find" THEN <<>> ELSE Cat([j \in 1..Len(cmd.with) |-> cmd.with[j].s])
+  IN [j \in 1..Len(E) |-> [s |-> E[j].s, e |-> E[j].e, n |-> E[j].n, repl |-> r, hasr |-> cmd.kind # "find"]]
+
 (* matches (with replacements) of one command on the current content of f   *)
 MatchesOn(c, cmd, t) ==
+  IF Fast(c, cmd) THEN FastMatches(cmd, t) ELSE
   LET defs == IF HasFld(c, "defs") THEN c.defs ELSE <<>>
       E == Expect(t, defs, cmd.body, cmd.amt).ms
   IN IF cmd.kind = "find" THEN [j \in 1..Len(E) |-> [s |-> E[j].s, e |-> E[j].e, n |-> E[j].n, repl |-> <<>>, hasr |-> FALSE]]
@@ -53,8 +79,9 @@ MatchesOn(c, cmd, t) ==
 
 Init ==
   /\ ci \in 1..Len(Cases)
+  /\ cs = Cases[ci]
   /\ k = 1 /\ a = 1 /\ pend = <<>>
-  /\ fs = FS0(Cases[ci]) /\ dl = DL0(Cases[ci])
+  /\ fs = FS0(cs) /\ dl = DL0(cs)
   /\ acc = <<>>
 
 Running == k <= Len(C.cmds)
@@ -64,13 +91,13 @@ ExpandArg ==
   /\ Running /\ pend = <<>> /\ a <= Len(C.order)
   /\ pend' = ExpandArgNow(C.order[a])
   /\ a' = a + 1
-  /\ UNCHANGED <<ci, k, fs, dl, acc>>
+  /\ UNCHANGED <<ci, cs, k, fs, dl, acc>>
 
 (* all arguments done: next command                                          *)
 NextCommand ==
   /\ Running /\ pend = <<>> /\ a > Len(C.order)
   /\ k' = k + 1 /\ a' = 1
-  /\ UNCHANGED <<ci, pend, fs, dl, acc>>
+  /\ UNCHANGED <<ci, cs, pend, fs, dl, acc>>
 
 (* a find command never modifies any file                                   *)
 RunFind ==
@@ -78,7 +105,7 @@ RunFind ==
   /\ C.cmds[k].kind = "find"
   /\ acc' = acc \o MatchesOn(C, C.cmds[k], fs[pend[1]])
   /\ pend' = Tail(pend)
-  /\ UNCHANGED <<ci, k, a, fs, dl>>
+  /\ UNCHANGED <<ci, cs, k, a, fs, dl>>
 
 (* a name created next to n in a listed directory sorts right after n       *)
 RECURSIVE InsertAfter(_, _, _)
@@ -101,7 +128,7 @@ RunReplace(mode) ==
         /\ dl' = IF mode = "NEW" /\ f.d \in DOMAIN dl THEN [dl EXCEPT ![f.d] = InsertAfter(@, f.n, f.n \o ".vored")] ELSE dl
         /\ acc' = acc \o ms
   /\ pend' = Tail(pend)
-  /\ UNCHANGED <<ci, k, a>>
+  /\ UNCHANGED <<ci, cs, k, a>>
 
 RunReplaceNothing   == RunReplace("NOTHING")
 RunReplaceNew       == RunReplace("NEW")
@@ -149,6 +176,14 @@ SpliceLemma ==
         o  == Splice(t, ms)
     IN /\ Len(o) = Len(t) + SumDelta(ms, 1)
        /\ StripRepl(o, ms, 1, 0) = Unmatched(t, ms, 1, 0)
+
+(* the direct scan is the semantics of a plain literal                      *)
+LitScanAgrees ==
+  (Running /\ pend # <<>> /\ IsPlainLit(C.cmds[k]) /\ ~HasFld(C, "big")) =>
+    LET t == fs[pend[1]]
+        E == Expect(t, <<>>, C.cmds[k].body, C.cmds[k].amt).ms
+        L == LitScan(t, C.cmds[k].body[1].s, 0, 1)
+    IN Len(E) = Len(L) /\ \A j \in 1..Len(E) : E[j].s = L[j].s /\ E[j].e = L[j].e /\ E[j].n = L[j].n
 
 (* emitted once per case, in its final state                                *)
 Emit ==
